@@ -106,8 +106,19 @@ func (g *Graph) AddEdge(v1, v2 Vertex) {
 func (g *Graph) AddEdgeWeighted(v1, v2 Vertex, weight int) {
 	g.init()
 	h1, h2 := hashcode(v1), hashcode(v2)
-	g.adjacencyOut[h1][h2] = weight
-	g.adjacencyIn[h2][h1] = weight
+
+	// Both vertices must be in the graph, otherwise this does nothing.
+	out, ok := g.adjacencyOut[h1]
+	if !ok {
+		return
+	}
+	in, ok := g.adjacencyIn[h2]
+	if !ok {
+		return
+	}
+
+	out[h2] = weight
+	in[h1] = weight
 }
 
 func (g *Graph) RemoveEdge(v1, v2 Vertex) {
